@@ -11,6 +11,17 @@ EVID = os.path.join(VERIF, "evidence")
 KNOWN = os.path.join(VERIF, "known_findings.json")
 
 
+def _print(*a):
+    """print that survives a closed pipe (`./check C14 | head -1` must still write the evidence file)"""
+    try:
+        print(*a)
+    except BrokenPipeError:
+        try:
+            sys.stdout = open(os.devnull, "w")
+        except Exception:
+            pass
+
+
 def slug(s):
     return re.sub(r"[^A-Za-z0-9_.-]+", "_", s)[:120]
 
@@ -66,9 +77,9 @@ class Report:
             n = 0
             for v in self.viols:
                 if (self.pid, v["rule"], v["key"]) not in known:
-                    print("SELFTEST-VIOLATION %s %s -- %s" % (v["rule"], v["key"], v["msg"][:300]))
+                    _print("SELFTEST-VIOLATION %s %s -- %s" % (v["rule"], v["key"], v["msg"][:300]))
                     n += 1
-            print("== selftest %s violations=%d obligations=%d" % (self.pid, n, len(self.oks) + len(self.viols)))
+            _print("== selftest %s violations=%d obligations=%d" % (self.pid, n, len(self.oks) + len(self.viols)))
             return 1 if n else 0
         os.makedirs(OUT, exist_ok=True)
         os.makedirs(os.path.join(OUT, "violations"), exist_ok=True)
@@ -88,27 +99,27 @@ class Report:
         for k, ent in kn.items():
             if k[0] == self.pid and k not in fired:
                 self.note("known finding %s/%s no longer fires (listed in known_findings.json)" % (k[1], k[2]))
-        print("== %s  tier=%s  rules=%d  obligations=%d  discharged=%d  violations=%d  known=%d" % (
+        _print("== %s  tier=%s  rules=%d  obligations=%d  discharged=%d  violations=%d  known=%d" % (
             self.pid, self.tier, len(self.rules), len(self.oks) + len(self.viols), len(self.oks),
             len(new_viol), len(known_hit)))
         for name in sorted(self.rules):
             n_ok = sum(1 for o in self.oks if o[0] == name)
             n_v = sum(1 for v in self.viols if v["rule"] == name)
-            print("   rule %-22s ok=%-4d viol=%-3d %s" % (name, n_ok, n_v, self.rules[name]))
+            _print("   rule %-22s ok=%-4d viol=%-3d %s" % (name, n_ok, n_v, self.rules[name]))
         for k in sorted(self.analysed):
-            print("   analysed %s = %s" % (k, self.analysed[k]))
+            _print("   analysed %s = %s" % (k, self.analysed[k]))
         for n in self.notes:
-            print("   note: %s" % n)
+            _print("   note: %s" % n)
         for v, ent in known_hit:
-            print("KNOWN-FINDING: property=%s %s [%s %s] %s" % (self.pid, ent.get("id", ""), v["rule"], v["key"],
+            _print("KNOWN-FINDING: property=%s %s [%s %s] %s" % (self.pid, ent.get("id", ""), v["rule"], v["key"],
                                                                 ent.get("what", v["msg"])))
         rc = 0
         for v in new_viol:
             path = os.path.join(OUT, "violations", "%s-%s-%s.json" % (self.pid, slug(v["rule"]), slug(v["key"])))
             with open(path, "w") as f:
                 json.dump({"property": self.pid, "tier": self.tier, **v}, f, indent=1, default=str)
-            print("   %s %s — %s — %s" % (v.get("where") or "", v["rule"], v["key"], v["msg"]))
-            print("VIOLATION property=%s replay=%s" % (self.pid, path))
+            _print("   %s %s — %s — %s" % (v.get("where") or "", v["rule"], v["key"], v["msg"]))
+            _print("VIOLATION property=%s replay=%s" % (self.pid, path))
             rc = 1
         # evidence
         samples = []
